@@ -54,6 +54,16 @@ Theorem C23_deleted_then_recreated : forall c st g v,
 Proof. exact delete_recreate_history. Qed.
 Print Assumptions C23_deleted_then_recreated.
 
+(* Every template handed out during a history, observed AGAIN when the history is over ([run_again]: the object
+   read from the final heap), is exactly what it was when it was returned -- for every history, configuration and
+   store, with no side condition: later requests with other globals, reloads, evictions, edits and deletions do not
+   reach a template returned earlier.  (Refuted for the code that rebinds `cached_template.globals` in place:
+   C23_earlier_responses_refuted.) *)
+Theorem C23_earlier_responses_unaffected : forall c st rs,
+  run_again fixed c (init c st) rs = run fixed c (init c st) rs.
+Proof. exact earlier_responses_unaffected. Qed.
+Print Assumptions C23_earlier_responses_unaffected.
+
 (* the model's "cache entry without an object" outcome never occurs *)
 Theorem C23_never_internal : forall c st rs,
   awaitable_uptodate c = false -> missing_raises c = false -> keys_injective c rs -> ~ In RInternal (run fixed c (init c st) rs).
@@ -128,9 +138,9 @@ Proof. vm_compute. split; reflexivity. Qed.
 
 (* --- the defects found in the code as it was, one transcription variant each ---
    (caching loader as found vs NON-caching loader as found: ref_run_v) *)
-Definition v_swap : variant := {| v_async_swap := true; v_globals_if := false; v_async_rawname := false |}.
-Definition v_gif : variant := {| v_async_swap := false; v_globals_if := true; v_async_rawname := false |}.
-Definition v_raw : variant := {| v_async_swap := false; v_globals_if := false; v_async_rawname := true |}.
+Definition v_swap : variant := {| v_async_swap := true; v_globals_if := false; v_async_rawname := false; v_hit_mutates := true |}.
+Definition v_gif : variant := {| v_async_swap := false; v_globals_if := true; v_async_rawname := false; v_hit_mutates := true |}.
+Definition v_raw : variant := {| v_async_swap := false; v_globals_if := false; v_async_rawname := true; v_hit_mutates := true |}.
 
 (* load_async used `name` as the cache key and `cache_key` as the template name: CachingDictLoader with a
    namespace key, get_template_async("a", uid="x") loads the template called "x/a" and caches it as "a";
@@ -180,6 +190,20 @@ Example C23_deleted_source_refuted :
     [RT {| t_name := n_a; t_src := (n_a, None); t_ver := 0; t_awaitable := false; t_globals := (0, 0)%N |};
      RDone; RE ENotFound; RE ENotFound].
 Proof. vm_compute. split; reflexivity. Qed.
+
+(* A cache hit rebound `cached_template.globals` on the ONE object shared by every requester (also after the
+   first repair, which made the rebinding unconditional): t = get_template("a", globals={g: 1}); any later request
+   for "a" without globals; t now renders without g.  The response of the first request has changed after the fact. *)
+Example C23_earlier_responses_refuted :
+  let h := [G Sync n_a None 1; G Async n_a None 0] in
+  run rebinding (cfg false) (init (cfg false) st_plain) h =
+    [RT {| t_name := n_a; t_src := (n_a, None); t_ver := 0; t_awaitable := false; t_globals := (0, 1)%N |};
+     RT {| t_name := n_a; t_src := (n_a, None); t_ver := 0; t_awaitable := false; t_globals := (0, 0)%N |}] /\
+  run_again rebinding (cfg false) (init (cfg false) st_plain) h =
+    [RT {| t_name := n_a; t_src := (n_a, None); t_ver := 0; t_awaitable := false; t_globals := (0, 0)%N |};
+     RT {| t_name := n_a; t_src := (n_a, None); t_ver := 0; t_awaitable := false; t_globals := (0, 0)%N |}] /\
+  run_again fixed (cfg false) (init (cfg false) st_plain) h = run fixed (cfg false) (init (cfg false) st_plain) h.
+Proof. vm_compute. repeat split. Qed.
 
 (* DictLoader gave no uptodate callable: with auto_reload on, an edited source is never picked up *)
 Example C23_dict_never_reloads_refuted :
